@@ -310,3 +310,35 @@ def idents(e):
             for y in x:
                 out += idents(y)
     return out
+
+
+def show(e):
+    """PEG expression in pest syntax (for messages)."""
+    k = e[0]
+    if k == "str":
+        return '"%s"' % e[1].encode("unicode_escape").decode().replace('"', '\\"')
+    if k == "insens":
+        return '^"%s"' % e[1]
+    if k == "range":
+        return "'%s'..'%s'" % (e[1], e[2])
+    if k == "ident":
+        return e[1]
+    if k == "seq":
+        return "(" + " ~ ".join(show(x) for x in e[1]) + ")"
+    if k == "choice":
+        return "(" + " | ".join(show(x) for x in e[1]) + ")"
+    if k == "opt":
+        return show(e[1]) + "?"
+    if k == "rep":
+        return show(e[1]) + "*"
+    if k == "rep1":
+        return show(e[1]) + "+"
+    if k == "repn":
+        return "%s{%s,%s}" % (show(e[1]), e[2], "" if e[3] is None else e[3])
+    if k == "neg":
+        return "!" + show(e[1])
+    if k == "pos":
+        return "&" + show(e[1])
+    if k == "push":
+        return "PUSH(%s)" % show(e[1])
+    return repr(e)
